@@ -206,6 +206,20 @@ def processNameH (hook : Name → Name) (cfg : Cfg) (n : Name) : Name :=
 
 def processName (cfg : Cfg) (n : Name) : Name := processNameH id cfg n
 
+/-! ### A generation run: many calls with different flags
+
+  One run of the generator calls `process_name` for every name of every scope, each scope with its
+  own flags (`scopeCfg`), interleaved.  The Python function reads nothing but its arguments and two
+  module constants fixed at import time (`keyword.kwlist`, `PYDANTIC_RESERVED_FIELD_NAMES`) and
+  writes nothing: a run is a map over its calls (utils.py `process_name`: no module-level state). -/
+
+structure Call where
+  cfg : Cfg
+  name : Name
+  deriving DecidableEq, Repr
+
+def runCalls (calls : List Call) : List Name := calls.map (fun c => processName c.cfg c.name)
+
 /-! ### Who calls it: the five scopes of the property -/
 
 inductive Scope where
